@@ -235,7 +235,14 @@ class FinishedPdu(AbstractFileDirectiveBase):
             raise BytesTooShortError(
                 finished_pdu.pdu_file_directive.packet_len, len(data)
             )
+        # Only the declared PDU without the CRC trailer contains directive parameters.
+        end_of_params = finished_pdu.pdu_file_directive.packet_len
+        if finished_pdu.pdu_file_directive.pdu_conf.crc_flag == CrcFlag.WITH_CRC:
+            end_of_params -= 2
+        data = data[:end_of_params]
         current_idx = finished_pdu.pdu_file_directive.header_len
+        if current_idx >= len(data):
+            raise BytesTooShortError(current_idx + 1, len(data))
         first_param_byte = data[current_idx]
         params = FinishedParams(
             condition_code=ConditionCode((first_param_byte & 0xF0) >> 4),
@@ -246,9 +253,7 @@ class FinishedPdu(AbstractFileDirectiveBase):
         finished_pdu._params = params
         current_idx += 1
         if len(data) > current_idx:
-            finished_pdu._unpack_tlvs(
-                rest_of_packet=data[current_idx : finished_pdu.packet_len]
-            )
+            finished_pdu._unpack_tlvs(rest_of_packet=data[current_idx:])
         return finished_pdu
 
     def _unpack_tlvs(self, rest_of_packet: bytes) -> int:
